@@ -201,6 +201,34 @@ def s_slots(rng, n=None):
     return lines
 
 
+def s_ltslot(rng):
+    """long-term credentials and transaction-slot reuse: request A is finished WITH REALM/USERNAME (its long-term key is
+    remembered), answered and retired; request B lands in the same slot, finished with another password and WITHOUT
+    REALM/USERNAME (nothing to remember); answers to B signed under A's old key are forgeries, the one under B's is not"""
+    compat = rng.randrange(4)
+    flags = S.F_LONG | rng.choice([0, 0, S.F_FPR])
+    user, realm, nonce, pw1 = rand_cred(rng)
+    pw2 = S.rand_bytes(rng, rng.choice([4, 16, 20]))
+    lines = [agent_line(compat, flags)]
+    for _ in range(rng.choice([0, 0, 1, 3])):          # some other slots in use
+        lines += [f"stun ireq 64 1 {S.rand_txid(rng, True).hex()}", f"stun fin {kx(pw1)}"]
+    ta = S.rand_txid(rng, True)
+    lines.append(f"stun ireq 300 3 {ta.hex()}")
+    lines += build_ops(rng, compat, flags, user, realm, nonce)
+    lines.append(f"stun fin {kx(pw1)}")
+    lines.append(f"stun val {S.hx(S.authentic(rng, compat, flags, 2, 3, ta, user, realm, nonce, pw1, extra_attrs(rng, 1)))} none")
+    tb = S.rand_txid(rng, True)
+    lines.append(f"stun ireq 300 3 {tb.hex()}")
+    for t, v in extra_attrs(rng, 1):
+        lines.append(f"stun app {t:04x} bytes {S.hx(v)}")
+    lines.append(f"stun fin {kx(pw2)}")
+    answers = [pw1, pw2, pw1] if rng.random() < 0.5 else [pw1, pw1, pw2]
+    for pw in answers:
+        wu = rng.random() < 0.8
+        lines.append(f"stun val {S.hx(S.authentic(rng, compat, flags, 2, 3, tb, user if wu else None, realm if wu else None, nonce if wu else None, pw, extra_attrs(rng, 1)))} none")
+    return lines
+
+
 def s_capacity_script(rng, order):
     """replay / reorder script at the saved-transaction capacity: STUN_AGENT_MAX_SAVED_IDS + 2 requests are
     finished (the last two must be refused), every request is answered authentically in `order`
@@ -256,6 +284,8 @@ def sessions_for(tier, rng):
         add("library-built", s_libbuilt(rng))
     for _ in range(600 if quick else 5000):
         add("slots", s_slots(rng))
+    for _ in range(400 if quick else 4000):
+        add("long-term-slot-reuse", s_ltslot(rng))
     for n in ((198, 200, 202) if quick else (1, 50, 199, 200, 201, 202, 202, 202)):
         add("slots-capacity", s_slots(rng, n))
     for order in ("forward", "reverse", "shuffled") * (1 if quick else 6):
@@ -276,8 +306,12 @@ def parse_val(o):
     return d
 
 
+LT = {}       # txid -> long-term key the outstanding request was finished with (oracle's own bookkeeping)
+
+
 def oracle(session, out):
     compat = flags = None
+    LT.clear()
     outstanding = []      # (txid, method, key) of requests the library finished and remembers
     cur = None            # (class, method, txid) of the message being built
     for line, o in zip(session, out):
@@ -288,6 +322,7 @@ def oracle(session, out):
         if op == "agent":
             compat, flags = int(w[2]), int(w[3], 16)
             outstanding = []
+            LT.clear()
             continue
         if op == "forget":
             ow = o.split()
@@ -313,6 +348,14 @@ def oracle(session, out):
                 key_after = ow[9]
                 if cls == 0 and not (compat == S.OC2007 and method == 4):
                     outstanding.append((buf[4:20], method, None if key_after == "null" else S.unhx(key_after)))
+                    # the long-term key that request was finished with (stun_agent_finish_message): MD5 (user:realm:password)
+                    # when the request itself carries REALM and USERNAME, none otherwise — computed here, not read back
+                    LT.pop(bytes(buf[4:20]), None)
+                    if flags & S.F_LONG and w[2] != "null":
+                        fa = S.attrs_of(buf, not (flags & S.F_NOALIGN))
+                        fr, fu = S.ref_find(fa, S.REALM, compat), S.ref_find(fa, S.USERNAME, compat)
+                        if fr is not None and fu is not None:
+                            LT[bytes(buf[4:20])] = S.long_term_key(buf[fu[0]:fu[0] + fu[1]], buf[fr[0]:fr[0] + fr[1]], S.unhx(w[2]))
                     if len([1 for _ in outstanding]) > 200:
                         return "more than STUN_AGENT_MAX_SAVED_IDS requests are remembered"
             if op == "fin" and ret == 0:
@@ -414,15 +457,14 @@ def val_oracle(pkt, tabs, st, ow, compat, flags, outstanding):
                         return f"status {st} with a {mi[1]}-byte MESSAGE-INTEGRITY"
                     k = expected_key
                     if flags & S.F_LONG:
-                        if match and ow[5] != "0":
-                            k = None   # long-term key stored with the request: checked through ltkey below
+                        lt = LT.get(bytes(txid)) if match else None
+                        if lt is not None:
+                            k = lt         # the key the matching request was finished with
                         else:
                             realm = S.ref_find(attrs, S.REALM, compat)
                             if realm is None or user is None:
                                 return f"status {st}: long-term credentials without REALM/USERNAME"
                             k = S.long_term_key(uname, pkt[realm[0]:realm[0] + realm[1]], expected_key)
-                    if k is None:
-                        k = S.unhx(ow[6]) if len(ow) > 6 and ow[5] == "1" else None
                     if k is not None:
                         exp = S.mac_expected(pkt, mi[0], compat, k)
                         if pkt[mi[0]:mi[0] + 20] != exp:
